@@ -33,6 +33,7 @@ type SpecEnv struct {
 	locals func(name string) (specVal, bool)
 	where  string
 	fvs    map[string]fvBinding // captured variables (closures)
+	inSpecBody bool // translating the body of a spec function (no assumptions may be emitted)
 	macroDepth int
 	entrySt     *State
 	entryLocals func(name string) (specVal, bool)
@@ -329,7 +330,7 @@ func (env *SpecEnv) field(x specVal, name string) specVal {
 			ptr = false
 			// values stored in a well-typed heap satisfy their type's shape facts
 			// (references below the allocation counter, lengths non-negative ...)
-			if env.st != nil && !strings.Contains(cur.String(), "!q") && !strings.Contains(cur.String(), "!e") {
+			if env.st != nil && !env.inSpecBody && !strings.Contains(cur.String(), "!q") && !strings.Contains(cur.String(), "!e") {
 				env.fx.assumeType(env.st, cur, ct)
 			}
 			if p, ok := ct.Underlying().(*types.Pointer); ok {
@@ -620,6 +621,13 @@ func (env *SpecEnv) call(e *SExpr) specVal {
 		if err != nil {
 			env.fail("%v", err)
 		}
+		if it, isI := t.Underlying().(*types.Interface); isI {
+			// typeis(x, I) for an interface type I: the dynamic type of x implements I
+			if it.NumMethods() == 0 {
+				return specVal{Neq(IfcTag(x.t), IntLit(0)), tBool}
+			}
+			return specVal{fx.implementsCond(x.t, it), tBool}
+		}
 		return specVal{Eq(IfcTag(x.t), IntLit(int64(fx.e.typeTag(t)))), tBool}
 	case "cast":
 		// cast(x, "*T"): the payload of interface value x viewed as a *T (meaningful when typeis(x, "*T"))
@@ -742,10 +750,23 @@ func (env *SpecEnv) callSpec(sf *SpecFunc, args []specVal) specVal {
 		env.fail("spec %s: %v", sf.Name, err)
 	}
 	name := "spec_" + sf.Name
+	// heap components read by the body are implicit parameters
+	type hcomp struct {
+		name string
+		sort Sort
+	}
+	var hcomps []hcomp
+	for _, r := range sf.Reads {
+		n, so, err := fx.e.heapComponent(fx, sf.Pkg, r)
+		if err != nil {
+			env.fail("spec %s: reads %s: %v", sf.Name, r, err)
+		}
+		hcomps = append(hcomps, hcomp{n, so})
+	}
 	if !fx.c.HasDecl(name) {
 		var params []*Term
 		var sorts []Sort
-		inner := &SpecEnv{fx: fx, pkg: sf.Pkg, vars: map[string]specVal{}, where: "spec " + sf.Name}
+		inner := &SpecEnv{fx: fx, pkg: sf.Pkg, vars: map[string]specVal{}, where: "spec " + sf.Name, inSpecBody: true}
 		for _, p := range sf.Params {
 			pt, err := fx.e.resolveType(sf.Pkg, p.Type)
 			if err != nil {
@@ -755,6 +776,18 @@ func (env *SpecEnv) callSpec(sf *SpecFunc, args []specVal) specVal {
 			params = append(params, v)
 			sorts = append(sorts, v.S)
 			inner.vars[p.Name] = specVal{v, pt}
+		}
+		if len(hcomps) > 0 {
+			pst := &State{guard: True, cells: map[*ssa.Alloc]*Term{}, heap: map[string]*Term{}, epoch: "SPEC"}
+			for _, h := range hcomps {
+				v := Var("hp_"+h.name, h.sort)
+				params = append(params, v)
+				sorts = append(sorts, h.sort)
+				pst.heap[h.name] = v
+			}
+			pst.heap["alloc"] = IntLit(0)
+			inner.st = pst
+			inner.old = pst
 		}
 		if sf.Body == nil {
 			fx.c.DeclareFun(name, sorts, fx.e.sortOf(rt))
@@ -772,9 +805,15 @@ func (env *SpecEnv) callSpec(sf *SpecFunc, args []specVal) specVal {
 					break
 				}
 			}
+			if strings.Contains(body.t.String(), "HSPEC_") {
+				env.fail("spec %s reads a heap component that is not listed in its reads clause", sf.Name)
+			}
 		} else {
 			body := inner.expr(sf.Body)
 			fx.c.DefineFun(name, params, fx.e.sortOf(rt), body.t, false)
+			if strings.Contains(body.t.String(), "HSPEC_") {
+				env.fail("spec %s reads a heap component that is not listed in its reads clause", sf.Name)
+			}
 		}
 	}
 	var ts []*Term
@@ -789,6 +828,12 @@ func (env *SpecEnv) callSpec(sf *SpecFunc, args []specVal) specVal {
 			env.fail("spec function %s arg %d: sort %s, want %s", sf.Name, i, a.t.S, fx.e.sortOf(pt))
 		}
 		ts = append(ts, a.t)
+	}
+	for _, h := range hcomps {
+		if env.st == nil {
+			env.fail("spec %s reads the heap but is used in a heap-free context", sf.Name)
+		}
+		ts = append(ts, fx.heapGet(env.st, h.name, h.sort))
 	}
 	return specVal{App(name, fx.e.sortOf(rt), ts...), rt}
 }
@@ -814,6 +859,9 @@ func (env *SpecEnv) assignLoc(e *SExpr) *assignLoc {
 	case "ident":
 		if b, ok := env.fvs[e.Name]; ok {
 			return &assignLoc{ref: b.ptr, refKind: "pcell", ptype: b.typ}
+		}
+		if e.Name == "caches" {
+			return &assignLoc{whole: "caches"}
 		}
 		env.fail("assigns %s: not a captured variable", e.Name)
 	case "field":
